@@ -2,6 +2,7 @@
 import json
 
 from .common import *  # noqa: F401,F403
+from .c17 import parse_sx
 
 HEADER = "From RL Require Import Corr.C13.\nOpen Scope Z_scope.\n"
 NULLKEY = -(1 << 40)      # NULL sorts before every integer in the derived order
@@ -95,7 +96,7 @@ def visible_rows(start, batches, nrows):
 
 
 def run(R, only=None):
-    R.prove()
+    R.prove(extra=["Corr/C13r.vo"])
     build_harness()
     n = 300 if R.tier == "quick" else 5000
     cases = [gen_case(R.rng, R.tier) for _ in range(n)]
@@ -186,7 +187,7 @@ def run(R, only=None):
             conds.append(resid)
         sel = rng.choice(["a, b", "b, a", "b", "a"])
         q = f"select {sel} from t where {' and '.join(conds)}"
-        steps += [{"sql": q}, {"sql": "pragma disable_optimizer"}, {"sql": q}]
+        steps += [{"explain": q}, {"sql": q}, {"sql": "pragma disable_optimizer"}, {"sql": q}]
         live = [(k, v) for k, v in rows if v != dele]
         want = [(k, v) for k, v in live if in_range(r, k) and (resid is None or (v > 3 if resid == "b > 3" else v < 8))]
         sc.append({"steps": steps, "want": want, "sel": sel, "q": q, "pos": pos, "block": rng.choice([64, 128, None])})
@@ -218,10 +219,27 @@ def run(R, only=None):
             if bt:
                 steps.append({"sql": "insert into t values " + ", ".join(f"({lit(k)}, {v})" for k, v in bt)})
         q = f"select a, b from t where a {op} {blit}"
-        steps += [{"sql": q}, {"sql": "pragma disable_optimizer"}, {"sql": q}]
+        steps += [{"explain": q}, {"sql": q}, {"sql": "pragma disable_optimizer"}, {"sql": q}]
         cmp = {"=": lambda x: x == bound, "<": lambda x: x < bound, "<=": lambda x: x <= bound, ">": lambda x: x > bound, ">=": lambda x: x >= bound}[op]
         sc.append({"steps": steps, "want": [(k, v) for k, v in rows if cmp(k)], "sel": "a, b", "q": q, "pos": 0, "block": rng.choice([64, None])})
     so = run_harness("sql", [{"engine": "disk", "steps": c["steps"], **({"block": c["block"]} if c["block"] else {})} for c in sc], jobs=16)
+    # the condition the planner pushed into the scan, against the model of the range analysis (Corr/C13r.v)
+    rterms, rowner = [], []
+    for c, o in zip(sc, so):
+        if isinstance(o, list) and len(o) >= len(c["steps"]) and isinstance(o[-4], dict) and "plan" in o[-4]:
+            for cond in pushed_conditions(parse_sx(o[-4]["plan"])):
+                rt = rex_term(cond)
+                if "XCol" not in rt or "XOther" in rt:
+                    continue       # a constant (`false` after folding) or another expression: the executor applies it as an ordinary filter
+                rterms.append(f"mk_case {0 if c['pos'] == 0 else 1} {rex_term(cond)}")
+                rowner.append((c, cond))
+    rfail = coq_eval("C13r", "From RL Require Import Corr.C13r.\nOpen Scope Z_scope.\n", rterms, per_file=200)
+    if rfail:
+        i = sorted(rfail)[0]
+        c, cond = rowner[i]
+        R.correspondence_broken("C13 the condition pushed into the scan is one the model's range analysis accepts (" +
+                                {1: "the model does not push it", 2: "another key column"}[rfail[i][0]] + f"): `{c['q']}`",
+                                json.dumps({"steps": c["steps"], "pushed": str(cond)})[:3000])
     for c, o in zip(sc, so):
         if not isinstance(o, list) or len(o) < len(c["steps"]):
             R.property_fails(None, f"C13 script aborted: {json.dumps(o)[-200:]}", {"kind": "sql-script", "case": c["steps"]})
@@ -248,6 +266,39 @@ def run(R, only=None):
         "sql_cases": len(sc), "model_vs_impl_disagreements": len(failing),
     })
     R.assumptions += ["only INT keys are modelled; other key types hit `panic!(\"... int32\")` / enum-variant comparison (known finding, exercised at SQL level only)"]
+
+
+def pushed_conditions(t):
+    """third arguments (other than `true`) of the scan nodes of a plan"""
+    if isinstance(t, str):
+        return []
+    op, args = t
+    out = []
+    if op == "scan" and len(args) == 3 and args[2] != "true":
+        out.append(args[2])
+    for a in args:
+        out += pushed_conditions(a)
+    return out
+
+
+def rex_term(t):
+    import re as _re
+    if isinstance(t, str):
+        m = _re.fullmatch(r"\$(\d+)\.(\d+)", t)
+        if m:
+            return f"(XCol {m.group(2)}%nat)"
+        if _re.fullmatch(r"-?\d+", t):
+            return f"(XConst (DI32 ({t})))"
+        if t == "null":
+            return "(XConst DNull)"
+        return "XOther"
+    op, args = t
+    ops = {"=": "OEq", ">": "OGt", ">=": "OGe", "<": "OLt", "<=": "OLe"}
+    if op in ops and len(args) == 2:
+        return f"(XCmp {ops[op]} {rex_term(args[0])} {rex_term(args[1])})"
+    if op == "and" and len(args) == 2:
+        return f"(XAnd {rex_term(args[0])} {rex_term(args[1])})"
+    return "XOther"
 
 
 def replay(R, path):
